@@ -154,7 +154,7 @@ class C03(Property):
         motls = sorted(h for h in hs if hs[h]["kind"] == "rln")
         tables = sorted(h for h in hs if hs[h]["kind"] == "rdf")
         cfg = world.cfg
-        ops = [("new", 3), ("import", 4), ("foreign_relion", 3), ("relion2emmotl", 1), ("relion2stopgap", 1)]
+        ops = [("new", 3), ("import", 4), ("foreign_relion", 3), ("foreign_df", 2), ("relion2emmotl", 1), ("relion2stopgap", 1)]
         if motls:
             ops += [("export_df", 4), ("write", 4), ("emmotl2relion", 2), ("stopgap_roundtrip", 1)]
         if tables:
@@ -187,6 +187,20 @@ class C03(Property):
                     "origins": None if rng.chance(0.12) else [[round(rng.uniform(-20, 20), 3) for _ in range(3)] for _ in range(n)],
                     "px": rng.pick([1.0, 2.6, 0.834, 13.48]), "subset": rng.pick([None, "parity", "one"]),
                     "crlf": rng.chance(0.15), "numbered": rng.chance(0.8), "extra_cols": rng.chance(0.5)}
+        if op == "foreign_df":
+            n = rng.randrange(1, cfg["max_rows"] + 1)
+            style = rng.pick(["default", "shuffled", "gaps", "shifted"])
+            idx = None
+            if style == "shuffled":
+                idx = rng.perm(n)
+            elif style == "gaps":
+                idx = sorted(rng.sample(range(3 * n + 2), n))
+            elif style == "shifted":
+                idx = [i + 5 for i in range(n)]
+            return {"op": "foreign_df", "sess": sess, "version": v, "parts": gen_particles(rng, n),
+                    "origins": None if rng.chance(0.12) else [[round(rng.uniform(-20, 20), 3) for _ in range(3)] for _ in range(n)],
+                    "px": rng.pick([1.0, 2.6, 0.834, 13.48]), "subset": rng.pick([None, "parity", "one"]),
+                    "extra_cols": rng.chance(0.5), "index": idx}
         if op == "emmotl2relion":
             tf, sf = rng.pick(FORMATS[v])
             return {"op": "emmotl2relion", "sess": sess, "src": rng.pick(motls), "out": rng.pick([None] + PATHS),
@@ -575,8 +589,8 @@ class C03(Property):
         world.probes["memory_roundtrip"] += 1
         return []
 
-    def op_foreign_relion(self, world, step):
-        path = self.abspath(world, step["path"])
+    def foreign_table(self, world, step):
+        """the independent RELION writer: tokens per column, optics block and the ground truth it implies"""
         v = step["version"]
         parts = step["parts"]
         n = len(parts)
@@ -619,16 +633,12 @@ class C03(Property):
         if step["extra_cols"]:
             cols["rlnCtfImage"] = ["/ctf/%04d_ctf.mrc" % p["subtomo"] for p in parts]
             cols["rlnMagnification"] = ["10000.000000"] * n
-        labels = list(cols)
-        blocks = []
+        optics = None
         optics_px = None
         if v >= 3.1:
             optics_px = float("%.6f" % px)
-            blocks.append({"spec": "data_optics", "labels": ["rlnOpticsGroup", "rlnOpticsGroupName", "rlnVoltage", "rlnImagePixelSize"],
-                           "rows": [["1", "opticsGroup1", "300.000000", "%.6f" % px]]})
-        blocks.append({"spec": spec, "labels": labels, "rows": [[cols[c][r] for c in labels] for r in range(n)]})
-        text = starmodel.render(blocks, {"eol": "\r\n" if step["crlf"] else "\n", "numbered": step["numbered"],
-                                         "header_comment": ["version 30001"], "seps": [" ", "  "], "lead": " "})
+            optics = {"spec": "data_optics", "labels": ["rlnOpticsGroup", "rlnOpticsGroupName", "rlnVoltage", "rlnImagePixelSize"],
+                      "rows": [["1", "opticsGroup1", "300.000000", "%.6f" % px]]}
         content = {"kind": "rln", "version": v,
                    "coord": [[float(cols["rlnCoordinate" + ax][i]) for ax in "XYZ"] for i in range(n)],
                    "origin": [[float(cols[nm][i]) if nm in cols else 0.0 for nm in origin_names] for i in range(n)],
@@ -636,11 +646,56 @@ class C03(Property):
                    "tomo": [int(p["tomo"]) for p in parts], "cls": [p["cls"] for p in parts],
                    "subtomo": [int(p["subtomo"]) for p in parts], "subset": subset, "pixel_col": pixel_col,
                    "optics_px": optics_px, "true_px": px, "via_file": True}
+        return spec, cols, optics, content
+
+    def op_foreign_relion(self, world, step):
+        path = self.abspath(world, step["path"])
+        v = step["version"]
+        spec, cols, optics, content = self.foreign_table(world, step)
+        labels = list(cols)
+        n = len(step["parts"])
+        blocks = [optics] if optics else []
+        blocks.append({"spec": spec, "labels": labels, "rows": [[cols[c][r] for c in labels] for r in range(n)]})
+        text = starmodel.render(blocks, {"eol": "\r\n" if step["crlf"] else "\n", "numbered": step["numbered"],
+                                         "header_comment": ["version 30001"], "seps": [" ", "  "], "lead": " "})
         world.fs.put(path, text.encode("ascii"))
         world.mfs[path] = ("known", content)
         world.pending_recovery.pop(path, None)
         world.probes["foreign_relion_%.1f" % v] += 1
         return [path]
+
+    def op_foreign_df(self, world, step):
+        """the same foreign RELION particle table handed over in memory (e.g. read with another STAR library and
+        filtered / sorted by the user, hence any index labels), imported with RelionMotl(table)"""
+        v = step["version"]
+        spec, cols, optics, content = self.foreign_table(world, step)
+        data = {}
+        for c, toks in cols.items():
+            try:
+                vals = [float(t) for t in toks]
+                data[c] = [int(x) for x in vals] if all(float(x).is_integer() for x in vals) and "Coordinate" not in c and "Angle" not in c and "Origin" not in c and "Pixel" not in c else vals
+            except ValueError:
+                data[c] = list(toks)
+        df = pd.DataFrame(data)
+        if step.get("index"):
+            df.index = step["index"]
+            world.probes["foreign_df_nondefault_index"] += 1
+        kw = {"version": v}
+        # in memory there is no optics block to read the pixel size from: the caller passes it (>= 3.1)
+        if v >= 3.1:
+            kw["pixel_size"] = step["px"]
+        out = world.call(step["sess"], cryomotl.RelionMotl, df, **kw)
+        world.note("foreign_df v=%s -> %s" % (v, out.describe()))
+        if not out.ok:
+            raise Violation("import_raised", "foreign_df:%s" % out.describe(),
+                            "RelionMotl(<RELION %.1f table in memory, index %s>) raised %r\n%s" % (
+                                v, "non-default" if step.get("index") else "default", out.exc, out.tb))
+        exp = self.expected_import(content, v, kw.get("pixel_size"))
+        self.check_import(world, out.value.df, exp, "RelionMotl(table v%.1f, %s index)" % (v, "non-default" if step.get("index") else "default"),
+                          TOL_FILE_POS, TOL_FILE_ROT)
+        world.stats["acks"] += 1
+        world.stats["judged_imports"] += 1
+        return []
 
     # ----- pipelines through files -----
     def op_emmotl2relion(self, world, step):
@@ -795,6 +850,8 @@ class C03(Property):
                     s2 = dict(step, parts=parts[keep])
                     if step.get("origins"):
                         s2["origins"] = step["origins"][keep]
+                    if step.get("index"):
+                        s2["index"] = None
                     yield s2
             for i, p in enumerate(parts):
                 if p["shift"] != [0.0, 0.0, 0.0]:
@@ -804,6 +861,8 @@ class C03(Property):
                     yield dict(step, parts=parts[:i] + [dict(p, ang=[float(round(a)) for a in p["ang"]])] + parts[i + 1:])
                 if p["x"] != [1.0, 2.0, 3.0]:
                     yield dict(step, parts=parts[:i] + [dict(p, x=[1.0, 2.0, 3.0])] + parts[i + 1:])
+        if step.get("index"):
+            yield dict(step, index=None)
         for k in ("override", "optics", "hint_version", "give_px", "crlf", "extra_cols", "update"):
             if step.get(k):
                 yield dict(step, **{k: False})
